@@ -195,6 +195,32 @@ def classes():
             self._tr.tunes[self._blk].append([int(skip_len), int(update_count), len(self._acc)])
             self.scale = self.scale / 2
 
+    class PreX(Sampler):
+        """precomputes from its target in _initialize (as UGLA / LinearRTO / NUTS do) and uses the precomputed value in step():
+        draw = scripted vector + (logd(1..1) - logd(0..0)) of the target it was last (re-)initialised with"""
+        KIND = "KPre"
+
+        def __init__(self, tr, blk, script, scale=1.0, **kw):
+            super().__init__(**kw)
+            self._tr, self._blk, self._script, self.scale = tr, blk, script, scale
+
+        def _initialize(self):
+            d = self.target.dim
+            self._pre = float(np.ravel(self.target.logd(np.ones(d)))[0]) - float(np.ravel(self.target.logd(np.zeros(d)))[0])
+
+        def validate_target(self):
+            pass
+
+        def step(self):
+            self._tr.on_step(self)
+            it = _pop(self._script, self.current_point)
+            self.current_point = np.asarray(it["vec"], dtype=float) + self._pre
+            return it["acc"]
+
+        def tune(self, skip_len, update_count):
+            self._tr.tunes[self._blk].append([int(skip_len), int(update_count), len(self._acc)])
+            self.scale = self.scale / 2
+
     class NutsX(NUTS):
         """takes HybridGibbs' isinstance(sampler, NUTS) branch; the transition itself is a recording one"""
         KIND = "KNuts"
@@ -227,7 +253,7 @@ def classes():
             self._tr.tunes[self._blk].append([int(skip_len), int(update_count), len(self._acc)])
             self.scale = self.scale / 2
 
-    _CL.update(mod=cuqi, QD=QD, Prop=Prop, KRec=RecX, KMH=MHx, KDirect=DirectX, KNuts=NutsX)
+    _CL.update(mod=cuqi, QD=QD, Prop=Prop, KRec=RecX, KMH=MHx, KDirect=DirectX, KNuts=NutsX, KPre=PreX)
     return _CL
 
 
@@ -493,7 +519,23 @@ def oracle_hybrid(meta, obs):
                     sc = meta["script"][t][i]
                     if j > 0 and e["pt"] != [float(a) for a in sc[j - 1]["vec"]]:
                         return "sweep %d block %s: transition %d does not continue from transition %d" % (t, spec["names"][i], j, j - 1), "HybridGibbs.step|start-point"
-            if meta["kinds"][i] in ("KRec", "KNuts"):
+            if nst[i] == 0 and new[i] != prev[i]:
+                return ("sweep %d: block %s is configured with 0 transitions per sweep but moved from %s to %s" % (t, spec["names"][i], prev[i], new[i])), "HybridGibbs.step|visits"
+            if meta["kinds"][i] == "KPre" and nst[i] > 0:
+                # a sampler that precomputes from its target at (re-)initialisation: every draw of this update must use the value
+                # precomputed from the CURRENT conditional: scripted vector + (joint at (others, 1..1) - joint at (others, 0..0))
+                want_ = [new[b] if b < i else prev[b] for b in range(k)]
+                a1, a0 = [list(x) for x in want_], [list(x) for x in want_]
+                a1[i], a0[i] = [1.0] * spec["dims"][i], [0.0] * spec["dims"][i]
+                delta = joint_py(spec, a1) - joint_py(spec, a0)
+                outs = [evs[pos - nst[i] + j + 1]["pt"] for j in range(nst[i] - 1)] + [new[i]]
+                for j, got in enumerate(outs):
+                    ex = [Fraction(*float(a).as_integer_ratio()) + delta for a in meta["script"][t][i][j]["vec"]]
+                    if [fr(a) for a in got] != ex:
+                        return ("sweep %d block %s: a sampler that precomputes from its target when it is initialised returned %s; with the "
+                                "quantity precomputed from the CURRENT conditional (others %s) it returns %s"
+                                % (t, spec["names"][i], got, [c for b, c in enumerate(want_) if b != i], [float(a) for a in ex])), "HybridGibbs.step|sampler-not-reinitialised-on-new-target"
+            if meta["kinds"][i] in ("KRec", "KNuts") and nst[i] > 0:
                 last = [float(a) for a in meta["script"][t][i][nst[i] - 1]["vec"]]
                 if new[i] != last:
                     return ("sweep %d: stored value of %s is %s, the sampler's point after its %d transitions is %s"
@@ -700,6 +742,8 @@ HY_CELLS = [
     ("hybrid/rec/2blk/warmup-default-freq", 2, 1, ["KRec"] * 2, None, [("warmup", 10, 0.1), ("sample", 1)]),
     ("hybrid/rec/3blk/warmup-twice", 3, 2, ["KRec"] * 3, [2, 1, 1], [("warmup", 2, 0.5), ("sample", 1), ("warmup", 3, 1.0), ("sample", 2)]),
     ("hybrid/rec/2blk/warmup-fractional-interval", 2, 1, ["KRec"] * 2, [1, 2], [("warmup", 3, 0.5), ("warmup", 5, 0.75), ("sample", 1)]),
+    ("hybrid/pre+rec/3blk/lik/steps", 3, 1, ["KPre", "KRec", "KPre"], [2, 1, 1], [("sample", 3)]),
+    ("hybrid/pre+mh+nuts/4blk/lik2/warmup", 4, 2, ["KMH", "KPre", "KNuts", "KRec"], [1, 2, 1, 0], [("warmup", 2, 0.5), ("sample", 2)]),
     ("hybrid/mh/2blk/sample", 2, 0, ["KMH", "KMH"], None, [("sample", 4)]),
     ("hybrid/mh/3blk/lik/steps", 3, 1, ["KMH", "KMH", "KMH"], [2, 1, 3], [("sample", 3)]),
     ("hybrid/mh+rec/3blk/lik/warmup+sample", 3, 1, ["KMH", "KRec", "KMH"], [1, 2, 2], [("warmup", 4, 0.5), ("sample", 2), ("sample", 1)]),
@@ -749,7 +793,7 @@ def pick_sig(rng, k, mode, kinds):
     else:
         sig = [rng.choice(tiny + huge + [1.0]) for _ in range(k)]
         sig[rng.randrange(k)] = rng.choice(tiny[:2])
-    return [1.0 if kinds[i] in ("KDirect",) else sig[i] for i in range(k)]
+    return [1.0 if kinds[i] in ("KDirect", "KPre") else sig[i] for i in range(k)]
 
 
 def scale_meta(meta, sig):
@@ -821,13 +865,13 @@ LG_LATTICE_CELLS = [("legacy/tuple-groups/%s" % g, kk, 1, ["LRec"] * kk, [(2, 1)
     ("legacy/dens-order/rec/3blk/lik2", 3, 2, ["LRec"] * 3, [(2, 1), (1, 0)]),
     ("legacy/dens-order/mh+rec/4blk/lik2", 4, 2, ["LMH", "LRec", "LMH", "LRec"], [(3, 0)]),
 ]
-STEP_OPTS = [None, 1, 2, 3]           # None = key missing from num_sampling_steps
+STEP_OPTS = [None, 0, 1, 2, 3]        # None = key missing from num_sampling_steps; 0 = the block is kept fixed (legitimate)
 
 
 def gen_hybrid_lattice(rng, idx):
-    """num_sampling_steps lattice: every (n0, n1) in {missing, 1, 2, 3}^2 for two blocks (recording x MH alternating), plus
+    """num_sampling_steps lattice: every (n0, n1) in {missing, 0, 1, 2, 3}^2 for two blocks (recording x MH alternating), plus
     densities declared with the data factors between the priors"""
-    a, b = STEP_OPTS[idx // 4], STEP_OPTS[idx % 4]
+    a, b = STEP_OPTS[idx // 5], STEP_OPTS[idx % 5]
     kinds = ["KRec", "KMH"] if idx % 2 else ["KMH", "KRec"]
     steps = None if (a is None and b is None and idx == 0) else [a, b]
     cell = ("hybrid/steps-lattice/%s,%s" % (a, b), 2, 1, kinds, steps, [("sample", 2), ("sample", 1)])
@@ -1907,7 +1951,7 @@ def run(ctx):
     for rep in range(reps2):
         cases += make_cases(gen_two_parent(rng, "hybrid", rep), fresh)
         cases += make_cases(gen_two_parent(rng, "legacy", rep), fresh)
-    for idx in range(16):
+    for idx in range(25):
         for rep in range(ctx.n(1, 6)):
             cases += make_cases(gen_hybrid_lattice(rng, idx), fresh)
     for cell in HY_ORDER_CELLS:
